@@ -1054,6 +1054,9 @@ def mpc_agm(a, b, prec, rnd=round_fast):
         return fzero, fzero
     if mpc_neg(a) == b:
         return fzero, fzero
+    if a == b:
+        # the principal square root would give -a for re(a) < 0
+        return mpc_pos(a, prec, rnd)
     wp = prec+20
     eps = mpf_shift(fone, -wp+10)
     while 1:
